@@ -2,6 +2,7 @@
 import itertools
 
 import implconc
+import directed
 
 DESCRIPTION = ("Lean: Props/C12.lean (for all task sets, programs and ALL schedules, with one binding per context the verdicts a "
                "task produces are those of its calls alone; no call takes the unchecked path; the shared-set discipline let a "
@@ -44,8 +45,15 @@ def _interleavings(a, b):
         yield s
 
 
+run_directed = directed.run
+
+
 def cases(tier, rng):
     thorough = tier == "thorough"
+    for c in directed.call_while_constructor_runs_cases():
+        yield "directed-call-while-constructor-runs", c
+    for c in directed.cancelled_in_body_cases():
+        yield "directed-cancelled-in-body", c
     for mode in ("async", "thread"):
         for inh in (["fresh", "fresh"], ["copy_before", "copy_before"], ["copy_after", "copy_after"], ["copy_after", "fresh"]):
             for t0, t1 in itertools.product([True, False], repeat=2):
